@@ -200,6 +200,7 @@ fn main() {
                     "mem" => hs.push(gen2::mem_history(s, thorough)),
                     "degenerate" => hs.push(gen2::degenerate_history(s, thorough)),
                     "neighbours" => hs.push(gen2::neighbours_history(s)),
+                    "skewed" => hs.push(gen2::skewed_history(s, thorough)),
                     other => panic!("unknown family {other}"),
                 }
             }
